@@ -63,6 +63,14 @@ def run_case(spec):
     else:
         for _ in range(spec["nev"]):
             evspecs.append(random_event_spec(rng, prob, t0, tf, dim, terminal=False))
+        if spec["nev"] >= 2 and rng.random() < 0.6:
+            # different functions crossing at the SAME instant (same surface, different scale/sign): every one of them must be reported
+            base_ev = evspecs[0]
+            for j in range(1, min(spec["nev"], 1 + int(rng.integers(1, 3)))):
+                e2 = dict(base_ev)
+                e2["scale"] = float(base_ev["scale"]) * float(rng.choice([-1, 1])) * float(10 ** rng.uniform(-2, 2))
+                e2["direction"] = 0
+                evspecs[j] = e2
     events = [Ev(s, dim) for s in evspecs]
     decs = sorted(set(int(np.floor(np.log10(abs(e.s)))) for e in events))
     rec = util.Rec(sig="%s|%d|%s|%s|%d|%d" % (spec["method"], d, spec["dense"], decs, len(events), spec["pseed"] % 11))
